@@ -398,6 +398,8 @@ def scenario_templates(rnd):
                 "Dense": _lim3(r), "Activation": [r.choice(BITS[1:])]})))
   T.append(("batchnorm_marked.bn", lambda r: base(
       "bn", {"Conv2D": _lim3(r), "BatchNormalization": [], "Activation": [r.choice(BITS[1:])], "Dense": _lim3(r)})))
+  T.append(("pattern_short_activation.bn", lambda r: base(      # the documented one-element form for Activation layers
+      "bn", {"Conv2D": _lim3(r), "^a\\d$": [r.choice([2, 3, 4])], "^mp$": [], "Dense": _lim3(r)})))
   T.append(("batchnorm_unmarked.bn", lambda r: base(
       "bn", {"Conv2D": _lim3(r), "^a\\d$": _lim3(r), "^mp$": []})))
   T.append(("tune_layer_tail.mlp_tail", lambda r: base(
